@@ -1542,6 +1542,45 @@ Proof.
       apply (multi1_refines c d m x W Rc Ex).
 Qed.
 
+(* ------------------------------------------------------------------ accumulating into a carrier without dyads
+   (the `DyadCarrier()` / `DyadCarrier(shape=...)` accumulator pattern): unknown dimensions are taken from the other
+   carrier as soon as it has at least one dyad.  The result depends on the other carrier having dyads, which is not a
+   function of its dense image: stated on the model, outside the dense program semantics. *)
+Lemma iadd_into_empty_refines (minus : bool) c o od : wf c -> wf o -> R o od ->
+  us c = [] -> us o <> [] -> (ulen c < 0 \/ ulen c = ulen o) -> (vlen c < 0 \/ vlen c = vlen o) ->
+  exists c', (if minus then isub c o else iadd c o) = (c', None) /\ wf c' /\
+             R c' (mkdm (dr od) (dc od) (if minus then mmap copp (dmat od) else dmat od) (dflag od || cplx c)).
+Proof.
+  intros W Wo Ro Eus Hne Hu Hv. pose proof (R_dmat o od Wo Ro) as Emo. destruct Ro as [Euo [Evo [_ Flo]]].
+  set (fac := if minus then Some (-1) else None).
+  assert (EA : (if minus then isub c o else iadd c o) = add_loop c (vpairs (us o) (vs o)) fac).
+  { destruct minus; unfold isub, iadd, fac; apply add_dyad_vecs; apply (wf_len _ Wo). }
+  rewrite EA.
+  assert (Evs : vs c = []) by (pose proof (wf_len _ W) as L; rewrite Eus in L; destruct (vs c); [reflexivity | discriminate]).
+  assert (Hl : exists u0 v0 ul vl, us o = u0 :: ul /\ vs o = v0 :: vl).
+  { pose proof (wf_len _ Wo) as L. destruct (us o) as [|u0 ul]; [contradiction|]. destruct (vs o) as [|v0 vl]; [discriminate|].
+    eexists _, _, _, _. split; reflexivity. }
+  destruct Hl as [u0 [v0 [ul [vl [Euso Evso]]]]].
+  assert (Lu0 : zlen (vd u0) = ulen o) by (pose proof (wf_u _ Wo) as F; rewrite Euso in F; apply Forall_cons_iff in F as [F _]; exact F).
+  assert (Lv0 : zlen (vd v0) = vlen o) by (pose proof (wf_v _ Wo) as F; rewrite Evso in F; apply Forall_cons_iff in F as [F _]; exact F).
+  assert (Eeu : eff_u c (vpairs (us o) (vs o)) = ulen o).
+  { unfold eff_u. rewrite Euso, Evso. unfold vpairs. cbn [map combine fst]. rewrite in_vec_ivec.
+    destruct (ulen c <? 0) eqn:E; [exact Lu0|]. apply Z.ltb_ge in E. destruct Hu; [lia | assumption]. }
+  assert (Eev : eff_v c (vpairs (us o) (vs o)) = vlen o).
+  { unfold eff_v. rewrite Euso, Evso. unfold vpairs. cbn [map combine snd]. rewrite in_vec_ivec.
+    destruct (vlen c <? 0) eqn:E; [exact Lv0|]. apply Z.ltb_ge in E. destruct Hv; [lia | assumption]. }
+  destruct (add_loop_spec (vpairs (us o) (vs o)) fac c W) as [c' [E [W' [Eu' [Ev' [Ps [Fl1 _]]]]]]].
+  { rewrite Eeu, Eev. apply conf_vpairs; [apply (wf_u _ Wo) | apply (wf_v _ Wo)]. }
+  exists c'. splits; auto.
+  apply (R_intro c' _ (fun i j => if minus then copp (psum (us o) (vs o) i j) else psum (us o) (vs o) i j));
+    cbn [dr dc dmat dflag]; auto; try congruence.
+  - unfold nrow, ncol in *. cbn [dr dc]. rewrite Emo. destruct minus; [apply mmap_tab | reflexivity].
+  - intros i j _ _. rewrite Ps, lsum_vpairs, Eus. unfold psum at 1. rewrite psumf_nil. unfold fac.
+    destruct minus; cbn [facC]; [change (cofZ (-1)) with (copp c1)|]; ring.
+  - intros H. destruct (Fl1 H) as [H1|H1]; [rewrite H1; apply orb_true_r|].
+    apply lflag_vpairs in H1. rewrite Flo; [reflexivity | apply (wf_flag_bound o Wo H1)].
+Qed.
+
 (* ------------------------------------------------------------------ stores, steps, programs *)
 Definition wfs (s : store) : Prop := Forall wf s.
 Definition Rs (s : store) (ds : dstore) : Prop := Forall2 R s ds.
@@ -1733,3 +1772,367 @@ Proof.
     try (unfold bind_inplace; cbn [fst]; apply set_slot_other; [congruence | assumption]).
 Qed.
 
+
+(* ------------------------------------------------------------------ the real / complex type is sound:
+   a vector typed float64 holds real data, hence a carrier that reports iscomplex() = False represents a real matrix *)
+Definition vreal (v : vec) : Prop := vf v = false -> Forall creal (vd v).
+Definition wr (c : carrier) : Prop := forall v, In v (us c) \/ In v (vs c) -> vreal v.
+Definition inreal (a : inarr) : Prop := vreal (in_vec a).
+Definition wrs (s : store) : Prop := Forall wr s.
+
+Lemma vget_real d i : Forall creal d -> creal (vget d i).
+Proof.
+  intros F. unfold vget. destruct (Nat.lt_ge_cases i (length d)) as [L|L].
+  - rewrite Forall_forall in F. apply F. apply nth_In. exact L.
+  - rewrite nth_overflow by lia. reflexivity.
+Qed.
+
+Lemma mget_real M i j : Forall (Forall creal) M -> creal (mget M i j).
+Proof.
+  intros F. unfold mget. apply vget_real. destruct (Nat.lt_ge_cases i (length M)) as [L|L].
+  - rewrite Forall_forall in F. apply F. apply nth_In. exact L.
+  - rewrite nth_overflow by lia. constructor.
+Qed.
+
+Lemma isum_real n f : (forall l, creal (f l)) -> creal (isum n f).
+Proof. intros H. unfold isum. apply csum_real. apply Forall_map. apply Forall_forall. intros l _. apply H. Qed.
+
+Lemma vtab_real n f : (forall i, creal (f i)) -> Forall creal (vtab n f).
+Proof. intros H. unfold vtab. apply Forall_map. apply Forall_forall. intros i _. apply H. Qed.
+
+Lemma mtab_real r c f : (forall i j, creal (f i j)) -> Forall (Forall creal) (mtab r c f).
+Proof. intros H. unfold mtab. apply Forall_map. apply Forall_forall. intros i _. apply vtab_real. apply H. Qed.
+
+Lemma map_real h d : (forall a, creal a -> creal (h a)) -> Forall creal d -> Forall creal (map h d).
+Proof. intros H F. apply Forall_map. eapply Forall_impl; [|exact F]. exact H. Qed.
+
+Lemma wr_empty r c : wr (empty r c).
+Proof. intros v [[]|[]]. Qed.
+
+Lemma setdims_us c a b : us (setdims c a b) = us c /\ vs (setdims c a b) = vs c.
+Proof.
+  destruct c as [cu cv cul cvl cf]. unfold setdims. cbn [us vs ulen vlen cplx].
+  destruct (cul <? 0); cbn [us vs ulen vlen cplx]; destruct (cvl <? 0); split; reflexivity.
+Qed.
+
+Lemma vreal_vscaleZ fac v : vreal v -> vreal (vscaleZ fac v).
+Proof.
+  intros H. destruct fac as [f|]; [|exact H]. intros Hf. cbn [vscaleZ vd vf] in *.
+  apply map_real; [|apply H; exact Hf]. intros a Ha. apply creal_mul; [reflexivity | exact Ha].
+Qed.
+
+Lemma add_loop_wr l fac : forall c, wr c -> Forall (fun p => inreal (fst p) /\ inreal (snd p)) l ->
+  wr (fst (add_loop c l fac)).
+Proof.
+  induction l as [|[a b] l IH]; intros c Hc F; [exact Hc|].
+  apply Forall_cons_iff in F as [[Ha Hb] F]. cbn [fst snd] in Ha, Hb. rewrite add_loop_cons. cbn zeta.
+  destruct (setdims_us c a b) as [E1 E2].
+  assert (H2 : wr (setdims c a b)) by (intros v Hv; rewrite E1, E2 in Hv; apply Hc; exact Hv).
+  destruct (negb (zlen (vd (in_vec a)) =? ulen (setdims c a b))); [exact H2|].
+  destruct (negb (zlen (vd (in_vec b)) =? vlen (setdims c a b))); [exact H2|].
+  destruct (vis0 (vd (in_vec a)) || vis0 (vd (in_vec b))); [apply IH; assumption|].
+  apply IH; [|exact F]. intros v Hv. cbn [us vs] in Hv. destruct Hv as [Hv|Hv]; apply in_app_or in Hv as [Hv|Hv].
+  - apply H2. left. exact Hv.
+  - destruct Hv as [<-|[]]. apply vreal_vscaleZ. exact Ha.
+  - apply H2. right. exact Hv.
+  - destruct Hv as [<-|[]]. exact Hb.
+Qed.
+
+Definition uarg_real (u : uarg) : Prop := Forall inreal (parse_to_list u).
+
+Lemma add_dyad_wr c u v fac : wr c -> uarg_real u -> uarg_real v -> wr (fst (add_dyad c u v fac)).
+Proof.
+  intros Hc Hu Hv. unfold add_dyad.
+  destruct (negb (Nat.eqb (length (parse_to_list u)) (length match v with UNone => parse_to_list u | _ => parse_to_list v end)));
+    [exact Hc|].
+  apply add_loop_wr; [exact Hc|]. apply Forall_forall. intros [a b] Hin. cbn [fst snd].
+  unfold uarg_real in *. rewrite Forall_forall in Hu, Hv. split.
+  - apply Hu. eapply in_combine_l. exact Hin.
+  - apply in_combine_r in Hin. destruct v; [apply Hu | apply Hv | apply Hv]; exact Hin.
+Qed.
+
+Lemma vecs_arg_real l : (forall v, In v l -> vreal v) -> uarg_real (vecs_arg l).
+Proof.
+  intros H. unfold uarg_real, vecs_arg. cbn [parse_to_list]. apply Forall_map. apply Forall_forall.
+  intros v Hv. unfold inreal. cbn [in_vec]. intros Hf. cbn [vd vf] in *. apply (H v Hv). exact Hf.
+Qed.
+
+Lemma to_res_fst p c' : to_res p = Ok c' -> fst p = c'.
+Proof. destruct p as [c [e|]]; cbn; [discriminate | intros H; injection H as <-; reflexivity]. Qed.
+
+Lemma mk_wr ul vl r cn c' : (forall v, In v ul -> vreal v) -> (forall v, In v vl -> vreal v) -> mk ul vl r cn = Ok c' -> wr c'.
+Proof.
+  intros Hu Hv H. unfold mk, new in H. apply to_res_fst in H. rewrite <- H.
+  apply add_dyad_wr; [apply wr_empty | apply vecs_arg_real; exact Hu | apply vecs_arg_real; exact Hv].
+Qed.
+
+Lemma in_map_vreal (f : vec -> vec) l : (forall v, In v l -> vreal v) -> (forall v, vreal v -> vreal (f v)) ->
+  forall v, In v (map f l) -> vreal v.
+Proof. intros H Hf v Hv. apply in_map_iff in Hv as [w [<- Hw]]. apply Hf. apply H. exact Hw. Qed.
+
+Lemma vreal_vmapv h v : (forall a, creal a -> creal (h a)) -> vreal v -> vreal (vmapv h v).
+Proof. intros H Hv Hf. cbn [vmapv vd vf] in *. apply map_real; [exact H | apply Hv; exact Hf]. Qed.
+
+Lemma vreal_vmapr h v : (forall a, creal (h a)) -> vreal (vmapr h v).
+Proof. intros H _. cbn [vmapr vd]. apply Forall_map. apply Forall_forall. intros a _. apply H. Qed.
+
+Lemma un_wr k c c' : wr c -> un_apply k c = Ok c' -> wr c'.
+Proof.
+  intros Hc. assert (Hu : forall v, In v (us c) -> vreal v) by (intros v Hv; apply Hc; left; exact Hv).
+  assert (Hv : forall v, In v (vs c) -> vreal v) by (intros v Hv; apply Hc; right; exact Hv).
+  destruct k; cbn [un_apply]; unfold copy, pos, neg, transpose, conj, real, imag; intros H; apply mk_wr in H; auto.
+  - apply in_map_vreal; [exact Hu|]. intros v. apply vreal_vmapv. apply creal_opp.
+  - apply in_map_vreal; [exact Hu|]. intros v. apply vreal_vmapv. intros a Ha. rewrite creal_conj by exact Ha. exact Ha.
+  - apply in_map_vreal; [exact Hv|]. intros v. apply vreal_vmapv. intros a Ha. rewrite creal_conj by exact Ha. exact Ha.
+  - intros v Hin. apply in_app_or in Hin as [Hin|Hin]; apply in_map_iff in Hin as [w [<- _]]; apply vreal_vmapr; intros a;
+      [apply creal_re | apply creal_opp; apply creal_im].
+  - intros v Hin. apply in_app_or in Hin as [Hin|Hin]; apply in_map_iff in Hin as [w [<- _]]; apply vreal_vmapr; intros a;
+      [apply creal_re | apply creal_im].
+  - intros v Hin. apply in_app_or in Hin as [Hin|Hin]; apply in_map_iff in Hin as [w [<- _]]; apply vreal_vmapr; intros a;
+      [apply creal_re | apply creal_im].
+  - intros v Hin. apply in_app_or in Hin as [Hin|Hin]; apply in_map_iff in Hin as [w [<- _]]; apply vreal_vmapr; intros a;
+      [apply creal_im | apply creal_re].
+Qed.
+
+Lemma vreal_scaled (g : C -> C) f v : (f = false -> forall a, creal a -> creal (g a)) -> vreal v ->
+  vreal (mkvec (map g (vd v)) (vf v || f)).
+Proof.
+  intros Hg Hv Hf. cbn [vd vf] in *. apply orb_false_iff in Hf as [Hf1 Hf2]. apply map_real; [apply Hg; exact Hf2 | apply Hv; exact Hf1].
+Qed.
+
+Lemma mul_wr c x f c' : wr c -> (f = false -> creal x) -> mul c x f = Ok c' -> wr c'.
+Proof.
+  intros Hc Hx H. unfold mul in H. refine (mk_wr _ _ _ _ c' _ _ H).
+  - intros v Hv. apply Hc. left. exact Hv.
+  - intros v Hin. apply in_map_iff in Hin as [w [<- Hw]]. apply (vreal_scaled (fun a => cmul a x)).
+    + intros Hf a Ha. apply creal_mul; [exact Ha | apply Hx; exact Hf].
+    + apply Hc. right. exact Hw.
+Qed.
+
+Lemma rmul_wr c x f c' : wr c -> (f = false -> creal x) -> rmul c x f = Ok c' -> wr c'.
+Proof.
+  intros Hc Hx H. unfold rmul in H. refine (mk_wr _ _ _ _ c' _ _ H).
+  - intros v Hin. apply in_map_iff in Hin as [w [<- Hw]]. apply (vreal_scaled (cmul x)).
+    + intros Hf a Ha. apply creal_mul; [apply Hx; exact Hf | exact Ha].
+    + apply Hc. left. exact Hw.
+  - intros v Hv. apply Hc. right. exact Hv.
+Qed.
+
+Lemma iadd_wr (minus : bool) c o : wr c -> wr o -> wr (fst (if minus then isub c o else iadd c o)).
+Proof.
+  intros Hc Ho. destruct minus; unfold isub, iadd; apply add_dyad_wr; auto; apply vecs_arg_real; intros v Hv; apply Ho; auto.
+Qed.
+
+Lemma map_res_in {A B} (f : A -> res B) l r : map_res f l = Ok r -> forall y, In y r -> exists x, In x l /\ f x = Ok y.
+Proof.
+  revert r. induction l as [|x l IH]; intros r H y Hy; cbn in H.
+  - injection H as <-. destruct Hy.
+  - destruct (f x) as [y0|] eqn:E; [|discriminate]. destruct (map_res f l) as [r'|]; [|discriminate]. injection H as <-.
+    destruct Hy as [<-|Hy]; [exists x; split; [left; reflexivity | exact E]|].
+    destruct (IH r' eq_refl y Hy) as [x' [Hx' E']]. exists x'. split; [right; exact Hx' | exact E'].
+Qed.
+
+Definition mreal (f : bool) (m : matr) : Prop := f = false -> Forall (Forall creal) m.
+
+Lemma bin_wr k c x c' : wr c ->
+  match x with PDyad o => wr o | PMat _ _ m f => mreal f m | _ => True end ->
+  bin_apply k c x = Ok (ODyad c') -> wr c'.
+Proof.
+  intros Hc Hx.
+  assert (Hu : forall v, In v (us c) -> vreal v) by (intros v Hv; apply Hc; left; exact Hv).
+  assert (Hv : forall v, In v (vs c) -> vreal v) by (intros v Hv; apply Hc; right; exact Hv).
+  assert (ADD : forall o, wr o -> add c (PDyad o) = Ok (ODyad c') -> wr c').
+  { intros o Ho H. cbn [add] in H. destruct (negb (shape_eqb o c) && ((size c >? 0) && (size o >? 0))); [discriminate|].
+    destruct (copy c) as [c1|] eqn:E1; [|discriminate]. apply (un_wr UCopy c c1 Hc) in E1.
+    rewrite lift_to_res in H. pose proof (iadd_wr false c1 o E1 Ho) as Hw. cbn beta iota in Hw.
+    destruct (snd (iadd c1 o)); [discriminate|]. injection H as <-. exact Hw. }
+  assert (COPY : forall s f, add c (PScal s f) = Ok (ODyad c') -> wr c').
+  { intros s f H. cbn [add] in H. destruct (cis0 s); [|discriminate]. destruct (copy c) as [c1|] eqn:E1; [|discriminate].
+    cbn in H. injection H as <-. apply (un_wr UCopy c c1 Hc E1). }
+  assert (DENSE : forall y, match y with PVec _ _ | PMat _ _ _ _ => True | _ => False end -> add c y <> Ok (ODyad c')).
+  { intros y Hy H. destruct y; try contradiction; cbn [add] in H;
+      destruct (broadcast_to _ (ulen c) (vlen c)) as [[B fb]|]; discriminate. }
+  assert (MM : matmul c x = Ok (ODyad c') -> wr c').
+  { destruct x as [s f|d f|nr nc m f|o]; cbn [matmul]; try discriminate.
+    - unfold dot_vec. destruct (map_res _ _); discriminate.
+    - destruct (map_res _ (vs c)) as [vl|] eqn:E; [|discriminate]. intros H.
+      destruct (mk (us c) vl (ulen c) nc) as [c1|] eqn:E1; [|discriminate]. cbn in H. injection H as <-.
+      apply mk_wr in E1; auto. intros v Hin. destruct (map_res_in _ _ _ E v Hin) as [w [Hw Ew]].
+      destruct (zlen (vd w) =? nr); [|discriminate]. injection Ew as <-. intros Hf. cbn [vd vf] in *.
+      apply orb_false_iff in Hf as [Hf1 Hf2]. unfold vecmat. apply vtab_real. intros j. apply isum_real. intros l.
+      apply creal_mul; [apply vget_real; apply (Hv w Hw Hf1) | apply mget_real; apply Hx; exact Hf2]. }
+  destruct k; cbn [bin_apply]; auto.
+  - (* add *) destruct x as [s f|d f|nr nc m f|o]; [apply (COPY s f) | intros H; exfalso; apply (DENSE (PVec d f) I H) | intros H; exfalso; apply (DENSE (PMat nr nc m f) I H) | apply ADD; exact Hx].
+  - (* radd *) destruct x as [s f|d f|nr nc m f|o]; [apply (COPY s f) | intros H; exfalso; apply (DENSE (PVec d f) I H) | intros H; exfalso; apply (DENSE (PMat nr nc m f) I H) | apply ADD; exact Hx].
+  - (* sub *)
+    unfold sub. destruct x as [s f|d f|nr nc m f|o]; cbn [neg_operand].
+    + apply (COPY (copp s) f).
+    + intros H; exfalso; apply (DENSE (PVec (map copp d) f) I H).
+    + intros H; exfalso; apply (DENSE (PMat nr nc (mmap copp m) f) I H).
+    + destruct (neg o) as [o'|] eqn:E; [|discriminate]. apply ADD. apply (un_wr UNeg o o' Hx E).
+  - (* rsub *)
+    destruct x as [s f|d f|nr nc m f|o]; cbn [rsub]; try discriminate.
+    + destruct (cis0 s); [|discriminate]. destruct (copy c) as [c1|] eqn:E1; [|discriminate].
+      destruct (neg c1) as [c2|] eqn:E2; [|discriminate]. cbn. intros H. injection H as <-.
+      apply (un_wr UNeg c1 c2 (un_wr UCopy c c1 Hc E1) E2).
+    + destruct (broadcast_to _ (ulen c) (vlen c)) as [[B fb]|]; discriminate.
+    + destruct (broadcast_to _ (ulen c) (vlen c)) as [[B fb]|]; discriminate.
+  - (* rmatmul *)
+    destruct x as [s f|d f|nr nc m f|o]; cbn [rmatmul]; try discriminate.
+    + unfold rdot_vec. destruct (map_res _ _); discriminate.
+    + destruct (map_res _ (us c)) as [ul|] eqn:E; [|discriminate]. intros H.
+      destruct (mk ul (vs c) nr (vlen c)) as [c1|] eqn:E1; [|discriminate]. cbn in H. injection H as <-.
+      apply mk_wr in E1; auto. intros v Hin. destruct (map_res_in _ _ _ E v Hin) as [w [Hw Ew]].
+      destruct (nc =? zlen (vd w)); [|discriminate]. injection Ew as <-. intros Hf. cbn [vd vf] in *.
+      apply orb_false_iff in Hf as [Hf1 Hf2]. unfold matvec. apply Forall_map. apply Forall_forall. intros row Hrow.
+      unfold vdot. apply isum_real. intros l. apply creal_mul; [|apply vget_real; apply (Hu w Hw Hf1)].
+      apply vget_real. specialize (Hx Hf2). rewrite Forall_forall in Hx. apply Hx. exact Hrow.
+Qed.
+
+Lemma vreal_subu ps v : vreal v -> vreal (subu ps v).
+Proof.
+  intros Hv Hf. cbn [subu vd vf] in *. unfold vtake. apply Forall_map. apply Forall_forall. intros k _.
+  apply vget_real. apply Hv. exact Hf.
+Qed.
+
+Lemma get_wr c i j c' : wr c -> getitem c i j = Ok (ODyad c') -> wr c'.
+Proof.
+  intros Hc. unfold getitem.
+  destruct ((ulen c <? 0) && (vlen c <? 0)); [intros H; injection H as <-; apply wr_empty|].
+  destruct (ulen c <? 0); [discriminate|]. destruct (idx_pos (ulen c) i) as [pu|]; [|discriminate].
+  destruct (vlen c <? 0); [discriminate|]. destruct (idx_pos (vlen c) j) as [pv|]; [|discriminate].
+  destruct (idx_arr i && idx_arr j && negb (Nat.eqb (length pu) (length pv))); [discriminate|].
+  destruct (idx_scalar i || idx_scalar j || idx_arr i && idx_arr j).
+  - destruct (idx_scalar i && idx_scalar j); discriminate.
+  - change (map (fun u => mkvec (vtake (vd u) pu) (vf u)) (us c)) with (map (subu pu) (us c)).
+    change (map (fun v => mkvec (vtake (vd v) pv) (vf v)) (vs c)) with (map (subu pv) (vs c)).
+    destruct (mk (map (subu pu) (us c)) (map (subu pv) (vs c)) (zlen pu) (zlen pv)) as [c1|] eqn:E; [|discriminate].
+    cbn. intros H. injection H as <-. refine (mk_wr _ _ _ _ c1 _ _ E).
+    + apply in_map_vreal; [intros v Hv; apply Hc; left; exact Hv | intros v; apply vreal_subu].
+    + apply in_map_vreal; [intros v Hv; apply Hc; right; exact Hv | intros v; apply vreal_subu].
+Qed.
+
+Lemma vec_set0_real ix v v' : vreal v -> vec_set0 ix v = Ok v' -> vreal v'.
+Proof.
+  intros Hv. unfold vec_set0. destruct (idx_null ix); [intros H; injection H as <-; exact Hv|].
+  destruct (idx_pos (zlen (vd v)) ix) as [ps|]; [|discriminate]. intros H. injection H as <-.
+  intros Hf. cbn [vd vf] in *. unfold vset0. apply vtab_real. intros k.
+  destruct (existsb (Z.eqb (Z.of_nat k)) ps); [reflexivity | apply vget_real; apply Hv; exact Hf].
+Qed.
+
+Lemma set_loop_wr i j : forall ul vl, (forall v, In v ul -> vreal v) -> (forall v, In v vl -> vreal v) ->
+  (forall v, In v (fst (fst (set_loop i j ul vl))) -> vreal v) /\ (forall v, In v (snd (fst (set_loop i j ul vl))) -> vreal v).
+Proof.
+  induction ul as [|u ul IH]; intros vl Hu Hv; [cbn; auto|]. destruct vl as [|v vl]; [cbn; auto|]. cbn [set_loop].
+  destruct (vec_set0 i u) as [u'|] eqn:Eu; [|cbn; auto].
+  pose proof (vec_set0_real i u u' (Hu u (or_introl eq_refl)) Eu) as Hu'.
+  destruct (vec_set0 j v) as [v'|] eqn:Ev.
+  - pose proof (vec_set0_real j v v' (Hv v (or_introl eq_refl)) Ev) as Hv'.
+    destruct (IH vl (fun w Hw => Hu w (or_intror Hw)) (fun w Hw => Hv w (or_intror Hw))) as [I1 I2].
+    destruct (set_loop i j ul vl) as [[a b] e]. cbn [fst snd] in *. split; intros w [<-|Hw]; auto.
+  - cbn [fst snd]. split; [intros w [<-|Hw]; auto | exact Hv]. apply Hu. right. exact Hw.
+Qed.
+
+Lemma set_wr c i j v : wr c -> wr (fst (setitem c i j v)).
+Proof.
+  intros Hc. unfold setitem. destruct (negb (cis0 v)); [exact Hc|].
+  destruct (negb (idx_null i) && negb (idx_null j)); [exact Hc|].
+  destruct (idx_null i && idx_null j); [intros w [[]|[]]|].
+  destruct (set_loop_wr i j (us c) (vs c) (fun w Hw => Hc w (or_introl Hw)) (fun w Hw => Hc w (or_intror Hw))) as [I1 I2].
+  destruct (set_loop i j (us c) (vs c)) as [[a b] e]. cbn [fst snd us vs] in *. intros w [Hw|Hw]; auto.
+Qed.
+
+Definition op_real (o : op) : Prop :=
+  match o with
+  | ONew _ u v _ _ | OAddDyad _ u v _ => uarg_real u /\ uarg_real v
+  | OMul _ _ x f | ORmul _ _ x f => f = false -> creal x
+  | OBin _ _ _ (AMat _ _ m f) => mreal f m
+  | _ => True
+  end.
+
+Lemma set_slot_wrs s n c : wrs s -> wr c -> wrs (set_slot s n c).
+Proof.
+  intros HW W. revert n. induction HW as [|c0' s W0 HW IH]; intros n.
+  - cbn. destruct n; constructor; auto; constructor.
+  - destruct n as [|n]; cbn; constructor; auto. apply IH.
+Qed.
+
+Lemma get_slot_wr s n c : wrs s -> get_slot s n = Ok c -> wr c.
+Proof.
+  intros HW H. unfold get_slot in H. destruct (nth_error s n) as [c1|] eqn:E; [|discriminate]. injection H as <-.
+  unfold wrs in HW. rewrite Forall_forall in HW. apply HW. eapply nth_error_In. exact E.
+Qed.
+
+Lemma bind_out_wrs s dst r : wrs s -> (forall c', r = Ok (ODyad c') -> wr c') -> wrs (fst (bind_out s dst r)).
+Proof.
+  intros HW H. destruct r as [[c'| | | | |]|e]; cbn [bind_out fst]; auto. apply set_slot_wrs; [exact HW | apply H; reflexivity].
+Qed.
+
+Lemma lift_ok r c' : lift r = Ok (ODyad c') -> r = Ok c'.
+Proof. destruct r; cbn; [intros H; injection H as <-; reflexivity | discriminate]. Qed.
+
+Lemma step_wr o s : wrs s -> op_real o -> wrs (fst (step o s)).
+Proof.
+  intros HW Ho.
+  destruct o as [dst u v r cn|tgt u v fac|k dst src|tgt src|tgt src|k dst a b|dst a x f|dst a x f|a|a k|dst a i j|tgt i j v|a mat rows cols|a mats];
+    cbn [step op_real] in *.
+  - apply bind_out_wrs; [exact HW|]. intros c' H. apply lift_ok in H. unfold new in H. apply to_res_fst in H. rewrite <- H.
+    destruct Ho as [H1 H2]. apply add_dyad_wr; [apply wr_empty | exact H1 | exact H2].
+  - destruct (get_slot s tgt) as [c|] eqn:E; [|exact HW]. unfold bind_inplace. cbn [fst]. apply set_slot_wrs; [exact HW|].
+    destruct Ho as [H1 H2]. apply add_dyad_wr; [apply (get_slot_wr s tgt c HW E) | exact H1 | exact H2].
+  - destruct (get_slot s src) as [c|] eqn:E; [|exact HW]. apply bind_out_wrs; [exact HW|]. intros c' H. apply lift_ok in H.
+    apply (un_wr k c c' (get_slot_wr s src c HW E) H).
+  - destruct (get_slot s tgt) as [c|] eqn:E; [|exact HW]. destruct (get_slot s src) as [o|] eqn:Eo; [|exact HW].
+    unfold bind_inplace. cbn [fst]. apply set_slot_wrs; [exact HW|].
+    apply (iadd_wr false c o (get_slot_wr s tgt c HW E) (get_slot_wr s src o HW Eo)).
+  - destruct (get_slot s tgt) as [c|] eqn:E; [|exact HW]. destruct (get_slot s src) as [o|] eqn:Eo; [|exact HW].
+    unfold bind_inplace. cbn [fst]. apply set_slot_wrs; [exact HW|].
+    apply (iadd_wr true c o (get_slot_wr s tgt c HW E) (get_slot_wr s src o HW Eo)).
+  - destruct (get_slot s a) as [c|] eqn:E; [|exact HW]. destruct (arg_operand s b) as [x|] eqn:Ex; [|exact HW].
+    apply bind_out_wrs; [exact HW|]. intros c' H. apply (bin_wr k c x c' (get_slot_wr s a c HW E)); [|exact H].
+    destruct b as [sx f|d f|nr nc m f|n]; cbn [arg_operand] in Ex.
+    + injection Ex as <-. exact I.
+    + injection Ex as <-. exact I.
+    + injection Ex as <-. exact Ho.
+    + destruct (get_slot s n) as [o|] eqn:Eo; [|discriminate]. injection Ex as <-. apply (get_slot_wr s n o HW Eo).
+  - destruct (get_slot s a) as [c|] eqn:E; [|exact HW]. apply bind_out_wrs; [exact HW|]. intros c' H. apply lift_ok in H.
+    apply (mul_wr c x f c' (get_slot_wr s a c HW E) Ho H).
+  - destruct (get_slot s a) as [c|] eqn:E; [|exact HW]. apply bind_out_wrs; [exact HW|]. intros c' H. apply lift_ok in H.
+    apply (rmul_wr c x f c' (get_slot_wr s a c HW E) Ho H).
+  - destruct (get_slot s a); exact HW.
+  - destruct (get_slot s a); exact HW.
+  - destruct (get_slot s a) as [c|] eqn:E; [|exact HW]. apply bind_out_wrs; [exact HW|]. intros c' H.
+    apply (get_wr c i j c' (get_slot_wr s a c HW E) H).
+  - destruct (get_slot s tgt) as [c|] eqn:E; [|exact HW]. unfold bind_inplace. cbn [fst]. apply set_slot_wrs; [exact HW|].
+    apply set_wr. apply (get_slot_wr s tgt c HW E).
+  - destruct (get_slot s a); exact HW.
+  - destruct (get_slot s a); exact HW.
+Qed.
+
+Lemma run_wr p : forall s, wrs s -> Forall op_real p -> wrs (fst (run p s)).
+Proof.
+  induction p as [|o p IH]; intros s HW F; [exact HW|]. apply Forall_cons_iff in F as [Ho F]. cbn [run].
+  pose proof (step_wr o s HW Ho) as H1. destruct (step o s) as [s1 r]. cbn [fst] in H1.
+  pose proof (IH s1 H1 F) as H2. destruct (run p s1) as [s2 rs]. exact H2.
+Qed.
+
+(* a carrier that is not complex represents a real matrix *)
+Lemma real_type c : wf c -> wr c -> cplx c = false -> Forall (Forall creal) (todense c).
+Proof.
+  intros W Hr Hc. rewrite todense_tab by exact W. apply mtab_real. intros i j. unfold psum, psumf. apply csum_real.
+  apply Forall_map. apply Forall_forall. intros [u v] Hin. cbn [fst snd]. unfold ent.
+  assert (Fu : vf u = false).
+  { destruct (vf u) eqn:E; [|reflexivity]. rewrite (wf_f _ W u (or_introl (in_combine_l _ _ _ _ Hin)) E) in Hc. discriminate. }
+  assert (Fv : vf v = false).
+  { destruct (vf v) eqn:E; [|reflexivity]. rewrite (wf_f _ W v (or_intror (in_combine_r _ _ _ _ Hin)) E) in Hc. discriminate. }
+  apply creal_mul; apply vget_real; [apply (Hr u (or_introl (in_combine_l _ _ _ _ Hin)) Fu) | apply (Hr v (or_intror (in_combine_r _ _ _ _ Hin)) Fv)].
+Qed.
+
+Theorem program_real_type p s ds ds' rs' : wfs s -> wrs s -> Rs s ds -> Forall op_real p -> drun p ds = Some (ds', rs') ->
+  forall c, In c (fst (run p s)) -> cplx c = false -> Forall (Forall creal) (todense c).
+Proof.
+  intros HW Hr HR Ho Hd c Hin Hc.
+  destruct (program_refines p s ds ds' rs' HW HR Hd) as [s' [rs [Er [W' _]]]].
+  pose proof (run_wr p s Hr Ho) as Hr'. rewrite Er in Hin, Hr'. cbn [fst] in *.
+  unfold wfs, wrs in *. rewrite Forall_forall in W', Hr'. apply real_type; auto.
+Qed.
